@@ -6,10 +6,11 @@ import Driver.EngineDrv
 import Driver.CrashDrv
 import Driver.WalFaultDrv
 import Driver.ConfigDrv
+import Driver.MemDrv
 open Driver
 
 def components : List (String × Component) :=
-  [("wal", WalDrv.component), ("sst", SstDrv.component), ("engine", EngineDrv.component), ("crash", CrashDrv.component), ("walfault", WalFaultDrv.component), ("config", ConfigDrv.component)]
+  [("wal", WalDrv.component), ("sst", SstDrv.component), ("engine", EngineDrv.component), ("crash", CrashDrv.component), ("walfault", WalFaultDrv.component), ("config", ConfigDrv.component), ("mem", MemDrv.component), ("memconc", MemDrv.concComponent)]
 
 def main (args : List String) : IO UInt32 := do
   match args with
